@@ -84,10 +84,49 @@ def build(name):
                 return inner(*args, **kwargs)
         k = K()
         return {'objs': {'w': K.__dict__['m']}, 'calls': {'sig': lambda: sigtools.signature(k.m), 'inspect': lambda: inspect.signature(k.m), 'bind': lambda: sigtools.signature(K().m)}}
+    if name == 'forger_function':
+        from sigtools import support
+
+        @specifiers.forger_function
+        @modifiers.kwoargs('obj')
+        def static_signature(obj, sig):
+            return sig
+
+        @static_signature(support.s('a, b, /'))
+        def w(d, e):
+            return d, e
+        return {'objs': {'w': w}, 'calls': {'sig': lambda: sigtools.signature(w), 'inspect': lambda: inspect.signature(w)}}
+    if name == 'partial_wraps':
+        @functools.wraps(inner)
+        def w(*args, **kwargs):
+            return inner(*args, **kwargs)
+        p = functools.partial(w, 1)
+        return {'objs': {'w': w, 'inner': inner}, 'calls': {'sig': lambda: sigtools.signature(p), 'inspect': lambda: inspect.signature(p)}}
+    if name == 'super_class':
+        class Base(object):
+            def m(self, x, y=2):
+                return x, y
+
+        @specifiers.apply_forwards_to_super('m')
+        class K(Base):
+            def m(self, a, *args, **kwargs):
+                return super(K, self).m(*args, **kwargs)
+        k = K()
+        return {'objs': {'w': K.__dict__['m'], 'base': Base.__dict__['m']}, 'calls': {'sig': lambda: sigtools.signature(k.m), 'inspect': lambda: inspect.signature(k.m)}}
+    if name == 'wrapper_decorator':
+        @wrappers.wrapper_decorator(0)
+        def d(func, *args, c=3, **kwargs):
+            return func(*args, **kwargs)
+
+        @d
+        def w(x, y=2):
+            return x, y
+        return {'objs': {'w': w}, 'calls': {'sig': lambda: sigtools.signature(w), 'inspect': lambda: inspect.signature(w)}}
     raise ValueError(name)
 
 
-SCENARIOS = ['wraps', 'wraps_chain', 'signature_attr', 'forger', 'forger_emulate', 'modifiers', 'as_forged', 'decorator', 'method_kwo']
+SCENARIOS = ['wraps', 'wraps_chain', 'signature_attr', 'forger', 'forger_emulate', 'modifiers', 'as_forged', 'decorator', 'method_kwo',
+             'forger_function', 'partial_wraps', 'super_class', 'wrapper_decorator']
 WATCHED = ('__wrapped__', '__signature__', '_sigtools__forger', '_sigtools__wrappers')
 
 
@@ -425,7 +464,8 @@ def crash_part(check, tier, seed, scratch):
 
 SCHED_CASES = [('wraps', ['sig', 'sig']), ('wraps', ['sig', 'inspect']), ('wraps_chain', ['sig', 'sig1']), ('signature_attr', ['sig', 'inspect']), ('as_forged', ['inspect', 'inspect']),
                ('as_forged', ['sig', 'inspect']), ('forger_emulate', ['inspect', 'inspect']), ('modifiers', ['sig', 'sig']), ('method_kwo', ['sig', 'bind']),
-               ('decorator', ['inspect', 'sig']), ('wraps', ['sig', 'sig', 'inspect'])]
+               ('decorator', ['inspect', 'sig']), ('wraps', ['sig', 'sig', 'inspect']), ('partial_wraps', ['sig', 'inspect']), ('super_class', ['sig', 'sig']),
+               ('wrapper_decorator', ['inspect', 'inspect']), ('forger_function', ['sig', 'inspect'])]
 
 
 def sched_gen(seed, n1, n2):
